@@ -1,6 +1,8 @@
 //! C19 — feature configurations agree: no_std, alloc and std builds give the same results.
 #[path = "../../../cfgprobe/src/transcript.rs"]
 pub mod transcript;
+#[path = "../../../nostdprobe/src/probe_core.rs"]
+pub mod probe_core;
 
 use crate::gens::{self, ZoneCfg};
 use crate::model::MZone;
@@ -49,6 +51,9 @@ pub fn arb_case() -> SBoxedStrategy<PCase> {
                     cv.push((f.y, f.mo, f.d, f.h, f.mi, f.s, f.ns));
                 }
             }
+            // the first / last years of the calendar (a DST rule cannot be evaluated there: the search is refused, possibly after a partial result)
+            cv.push((i32::MIN + (buf_len as i32 % 3), 6, 1, 12, 0, 0, 0));
+            cv.push((i32::MAX - (buf_len as i32 % 3), 6, 1, 12, 0, 0, 0));
             PCase { zone: to_pzone(&z), instants, civils: cv, nanos: nanos.iter().map(|n| n.to_string()).collect(), buf_len }
         })
         .sboxed()
@@ -137,7 +142,129 @@ fn compare(cases: &[PCase], st: &mut Stats) -> Result<(), Failure> {
     Ok(())
 }
 
+/// Builds the #![no_std], allocator-free static library around tz-rs (no features) and links it into a C program.
+fn build_nostd() -> Result<std::path::PathBuf, Failure> {
+    let verif = crate::run::verif_dir();
+    let tdir = verif.join("target/nostdprobe");
+    let log = verif.join("build/c19-build-nostd.log");
+    let fail = |what: &str, text: &[u8]| {
+        let _ = std::fs::write(&log, text);
+        let dst = replay_dir("C19").join("build-nostd.log");
+        let _ = std::fs::create_dir_all(replay_dir("C19"));
+        let _ = std::fs::copy(&log, &dst);
+        let t = String::from_utf8_lossy(text);
+        let first = t.lines().filter(|l| l.starts_with("error") || l.contains("undefined reference")).take(2).collect::<Vec<_>>().join(" | ");
+        Failure::new("build", format!("tz-rs without features cannot be {what} a #![no_std] program that has no global allocator: {first}"), json!({"config": "nostd", "log": dst.display().to_string()}))
+    };
+    let out = Command::new("cargo")
+        .current_dir(verif.join("nostdprobe"))
+        .env("CARGO_NET_OFFLINE", "true")
+        .args(["build", "--release", "--offline", "--target-dir"])
+        .arg(&tdir)
+        .output()
+        .map_err(|e| Failure::new("infra", format!("cannot run cargo: {e}"), json!(null)))?;
+    if !out.status.success() {
+        return Err(fail("compiled into", &[&out.stdout[..], &out.stderr[..]].concat()));
+    }
+    let bin = verif.join(format!("build/nostdprobe_bin-{}", std::process::id()));
+    let out = Command::new("gcc")
+        .arg("-O1")
+        .arg(verif.join("nostdprobe/driver.c"))
+        .arg(tdir.join("release/libnostdprobe.a"))
+        .arg("-o")
+        .arg(&bin)
+        .output()
+        .map_err(|e| Failure::new("infra", format!("cannot run gcc: {e}"), json!(null)))?;
+    if !out.status.success() {
+        return Err(fail("linked into", &[&out.stdout[..], &out.stderr[..]].concat()));
+    }
+    Ok(bin)
+}
+
+fn nostd_compare(bin: &Path, recs: &[[i64; 10]], st: &mut Stats) -> Result<(), Failure> {
+    let verif = crate::run::verif_dir();
+    let path = verif.join(format!("build/c19-nostd-{}.bin", std::process::id()));
+    let flat: Vec<i64> = recs.iter().flatten().copied().collect();
+    let bytes: Vec<u8> = flat.iter().flat_map(|v| v.to_le_bytes()).collect();
+    std::fs::write(&path, bytes).map_err(|e| Failure::new("infra", e.to_string(), json!(null)))?;
+    let out = Command::new(bin).arg(&path).output().map_err(|e| Failure::new("infra", format!("cannot run {bin:?}: {e}"), json!(null)))?;
+    let _ = std::fs::remove_file(&path);
+    let mut own = String::new();
+    probe_core::run_records(&flat, &mut own).map_err(|_| Failure::new("infra", "formatting into a String failed", json!(null)))?;
+    let own: Vec<&str> = own.lines().collect();
+    if !out.status.success() {
+        // the no_std program aborted (its panic handler calls abort) or could not hold its output: find the record by bisection
+        if recs.len() == 1 {
+            return Err(Failure::new("nostd-record", format!("the allocator-free no_std program dies ({:?}) on record {:?}; the std harness prints: {}", out.status, recs[0], own.first().unwrap_or(&"")), json!(recs[0])));
+        }
+        let (a, b) = recs.split_at(recs.len() / 2);
+        nostd_compare(bin, a, st)?;
+        return nostd_compare(bin, b, st);
+    }
+    let text = String::from_utf8_lossy(&out.stdout);
+    let got: Vec<&str> = text.lines().collect();
+    if got.len() != recs.len() || own.len() != recs.len() {
+        return Err(Failure::new("infra", format!("no_std probe printed {} lines, harness {} for {} records", got.len(), own.len(), recs.len()), json!(null)));
+    }
+    for (i, r) in recs.iter().enumerate() {
+        st.eval(1);
+        if got[i] != own[i] {
+            return Err(Failure::new("nostd-record", format!("record {r:?}: the allocator-free no_std build prints\n  {}\nthe std build prints\n  {}", got[i], own[i]), json!(r)));
+        }
+        if !own[i].contains("ERR") {
+            st.nontrivial(&own[i]);
+            st.class(match r[0].rem_euclid(3) {
+                0 => "nostd_instant_records",
+                1 => "nostd_search_records",
+                _ => "nostd_nanosecond_records",
+            });
+            if own[i].contains("OutOfRange B[") {
+                st.class("nostd_search_refused_after_partial_result");
+            }
+        }
+        if st.wants_sample("nostd_record") {
+            st.sample("nostd_record", || json!({"record": r, "transcript": own[i].chars().take(240).collect::<String>()}));
+        }
+    }
+    Ok(())
+}
+
+pub fn arb_record() -> SBoxedStrategy<[i64; 10]> {
+    let near = |c: i64| (c - 4000..c + 4000).sboxed();
+    let instant = prop_oneof![
+        3 => gens::arb_unix_time(),
+        2 => proptest::sample::select(vec![1_615_705_200i64, 1_636_264_800, 1_616_893_200, 1_635_642_000, 100_000_000, 78_796_800, 94_694_401, 126_230_402, 0, -84_387_600, -68_666_400]).prop_flat_map(|c| (c - 3..=c + 3)),
+        1 => near(1_615_705_200),
+        1 => near(1_636_264_800),
+    ];
+    let year = prop_oneof![4 => 1960i64..2040, 2 => gens::arb_year().prop_map(|y| y as i64), 2 => proptest::sample::select(vec![i32::MIN as i64, i32::MIN as i64 + 1, i32::MIN as i64 + 2, i32::MAX as i64 - 2, i32::MAX as i64 - 1, i32::MAX as i64, 2021, 1967, 1973])];
+    let fields = prop_oneof![
+        3 => (year, 1i64..=12, 1i64..=28, 0i64..24, 0i64..60, 0i64..=60),
+        2 => (Just(2021i64), Just(3i64), Just(14i64), 1i64..4, 0i64..60, 0i64..=60),
+        2 => (Just(2021i64), Just(11i64), Just(7i64), 0i64..3, 0i64..60, 0i64..=60),
+        1 => (proptest::sample::select(vec![2021i64, 2024, 1967]), prop_oneof![Just(3i64), Just(10i64), Just(4i64)], 24i64..=31, 0i64..4, 0i64..60, 0i64..=60),
+        1 => (1960i64..2040, 0i64..14, 0i64..33, 0i64..26, 0i64..62, 0i64..63),
+    ];
+    (0i64..3, 0i64..6, instant, prop_oneof![3 => gens::arb_ns().prop_map(|n| n as i64), 1 => Just(0i64), 1 => Just(999_999_999i64)], fields, 0i64..4, any::<i64>(), any::<i64>(), any::<bool>())
+        .prop_map(|(kind, zone, t, ns, (y, mo, d, h, mi, s), n, a, b, neg)| match kind {
+            1 => [1, zone, y, mo, d, h, mi, s, n + 4 * (a.rem_euclid(1000)), b],
+            2 => [2, zone, t.clamp(-9_000_000_000_000_000_000 / 1_000_000_000 * 1_000_000_000, i64::MAX), if neg { -ns } else { ns }, 0, 0, 0, 0, a, b],
+            _ => [0, zone, t, ns, 0, 0, 0, 0, a, b],
+        })
+        .sboxed()
+}
+
 pub fn replay(kind: &str, case: &Value) -> Result<(), String> {
+    if kind == "nostd-record" {
+        let r: [i64; 10] = serde_json::from_value(case.clone()).map_err(|e| e.to_string())?;
+        let bin = build_nostd().map_err(|f| f.summary)?;
+        let res = nostd_compare(&bin, &[r], &mut Stats::new()).map_err(|f| f.summary);
+        let _ = std::fs::remove_file(&bin);
+        return res;
+    }
+    if kind == "build" && case["config"].as_str() == Some("nostd") {
+        return build_nostd().map(|b| { let _ = std::fs::remove_file(b); }).map_err(|f| f.summary);
+    }
     match kind {
         "build" => {
             let cfg = case["config"].as_str().unwrap_or("none");
@@ -202,10 +329,11 @@ pub fn run(ctx: &Ctx) -> Outcome {
     let mut out = Outcome::new(
         "One generated corpus of cases (zone of any shape incl. leap tables, zic-aligned tables and i64-wide times; instants from the unix-time mixture plus the zone's own transitions -1/0; civil times valid / single-defect / shown at the transitions; total-nanosecond counts; buffer lengths 0..3) is run through a probe binary built three times against tz-rs with features {}, {alloc}, {alloc,std} \
          (the probe uses only API that exists without `alloc`: TimeZoneRef, LocalTimeType, rule types, UtcDateTime, DateTime incl. find_n and projection, Display - also with width / precision / fill specs - through a fixed-size fmt::Write buffer) and through the same transcript function inside the std harness; the per-case transcripts must be identical. \
-         One case in eight carries a zone defect (all configurations must refuse alike); four cases in sixteen are zones sharing rule days/times but not offsets, searched back to back. A configuration that does not build while the default one does is a violation (replay = build log). Non-trivial: cases whose zone is accepted (lookups, searches and renderings actually executed).",
+         One case in eight carries a zone defect (all configurations must refuse alike); four cases in sixteen are zones sharing rule days/times but not offsets, searched back to back. A configuration that does not build while the default one does is a violation (replay = build log). \
+         In addition the same probe logic (nostdprobe/src/probe_core.rs: 6 zones incl. table+rule, negative DST, leap table, parameterised offsets; instants, searches through find_n with fresh / reused buffers incl. the buffer contents after a refusal, total-nanosecond counts, Display with width/precision) runs inside an allocator-free #![no_std] static library linked into a C program, on generated records, and must print what the std harness prints. Non-trivial: cases whose zone is accepted (lookups, searches and renderings actually executed).",
     );
     out.assumptions = vec![
-        "no bare-metal target is installed: 'needs no allocator / standard library' is checked as 'compiles as a no_std crate without the alloc feature and gives the same answers on the host'".into(),
+        "'needs neither an allocator nor the standard library' is checked on the host: tz-rs without features is compiled into a #![no_std] static library that defines no global allocator (rustc refuses to produce it if any linked crate needs one) and linked into a C program with gcc (fails on any unresolved std / allocator symbol); that program's transcript must equal the std harness's for every record. No bare-metal target is installed".into(),
     ];
     let n = ctx.tier.pick(30_000usize, 400_000usize);
     let mut dr = Drawer::new(ctx, "corpus", 0);
@@ -235,6 +363,46 @@ pub fn run(ctx: &Ctx) -> Outcome {
             break;
         }
         done += k;
+    }
+    out.stats.merge(st);
+    if out.failure.is_some() {
+        return out;
+    }
+    // the crate without features inside a #![no_std] static library with no global allocator, linked into a C program
+    let mut st = Stats::new();
+    match build_nostd() {
+        Err(f) => out.failure = Some(f),
+        Ok(bin) => {
+            let n = ctx.tier.pick(60_000usize, 1_500_000usize);
+            let mut dr = Drawer::new(ctx, "nostd", 0);
+            let strat = arb_record();
+            let mut done = 0usize;
+            // fixed records first: year limits in the table+rule zone (a search refused after a partial result), gap, fold
+            let mut recs: Vec<[i64; 10]> = vec![];
+            for zone in 0..6 {
+                for y in [i32::MIN as i64, i32::MIN as i64 + 1, i32::MIN as i64 + 2, i32::MAX as i64 - 1, i32::MAX as i64] {
+                    for n in 0..4 {
+                        for reuse in 0..2 {
+                            recs.push([1, zone, y, 6, 1, 12, 0, 0, n, reuse]);
+                            recs.push([1, zone, y, 12, 31, 23, 59, 60, n, reuse]);
+                            recs.push([1, zone, y, 1, 1, 0, 0, 0, n, reuse]);
+                        }
+                    }
+                }
+            }
+            while done < n {
+                while recs.len() < 20_000.min(n - done).max(1) {
+                    recs.push(dr.draw(&strat));
+                }
+                if let Err(f) = nostd_compare(&bin, &recs, &mut st) {
+                    out.failure = Some(f);
+                    break;
+                }
+                done += recs.len();
+                recs.clear();
+            }
+            let _ = std::fs::remove_file(&bin);
+        }
     }
     out.stats.merge(st);
     out
